@@ -89,7 +89,8 @@ func c18InstanceStart(page []byte, pos int, id string) int {
 	for {
 		// the previous element of the token is  m + (raw | &lt; | &gt; | &#34; | &#39; | &amp; | \u00XX | \")
 		found := false
-		for _, esc := range []string{"<", ">", "\"", "'", "&", "&lt;", "&gt;", "&#34;", "&#39;", "&amp;", "&quot;", "\\u003c", "\\u003e", "\\u0026", "\\\"", "-"} {
+		for _, esc := range []string{"<", ">", "\"", "'", "&", "&lt;", "&gt;", "&#34;", "&#39;", "&amp;", "&quot;", "\\u003c", "\\u003e", "\\u0026", "\\\"", "-",
+			"＜", "＞", "＂", "＇", "＆", "﹤", "﹥", "﹠", "</td", "&lt;/td", "＜／td"} {
 			suffix := append(append([]byte{}, m...), []byte(esc)...)
 			if bytes.HasSuffix(lower[:pos], suffix) {
 				pos -= len(suffix)
